@@ -189,13 +189,61 @@ def build_world():
             out.append(("dispatched: the implementation of the exported object ran exactly once with the call's member and sender, nothing sent yet",
                         z3.And(exported, ran == 1, nsent == 0, cx.new(obj).g_exec_member.none == m.member.none, cx.new(obj).g_exec_member.val.term == member,
                                cx.new(obj).g_exec_sender.none == m.sender.none, z3.Implies(z3.Not(m.sender.none), cx.new(obj).g_exec_sender.val.term == m.sender.val.term))))
+            j0, is_first = first_match(cx)
+            out.append(('the interface that answers is the FIRST in lookup order that matches (named interface, else the first declaring the member)',
+                        z3.Implies(is_first, cx.new(obj).g_exec_iface == iface_seq(cx)[j0])))
             want = [('send_reply', None), (None, 'send_error')]
             out.append(('reply expected: send_reply then send_error are chained on the result, so a failure of the implementation OR of encoding its value reaches send_error; otherwise nothing is chained',
                         z3.If(m.expectReply, z3.BoolVal(shape == want), z3.BoolVal(shape == []))))
         return out
 
+    # ---- which interface answers: the FIRST one, in the object's lookup order, that matches
+    #      MATCH(j) = (the call names an interface ? ifaces[j].name == it : the member is declared by ifaces[j])
+    #      NOM(k)   = no match among the first k interfaces            NOM(0) ;  NOM(k+1) = NOM(k) and not MATCH(k)
+    def iface_seq(cx):
+        h = cx.old(cx.args['self'])
+        m = cx.old(cx.args['msg'])
+        obj = VRef(z3.Select(h.exports.vals[0], m.path.val.term), 'IObj')
+        return cx.old(obj).g_ifaces.seqs[0]
+
+    def MATCH(cx, j):
+        m = cx.old(cx.args['msg'])
+        ifs = iface_seq(cx)
+        iv = cx.old(VRef(ifs[j], 'Iface'))
+        named = z3.And(z3.Not(m.interface.none), m.interface.val.term != sv(''))
+        return z3.If(named, iv.name == m.interface.val.term, z3.Select(iv.methods.dom, m.member.val.term))
+
+    def NOM(cx, k):
+        if not hasattr(cx.ctx, 'nom_arr'):
+            cx.ctx.nom_arr = cx.ctx.fresh('NOM', z3.ArraySort(IntSort, BoolSort))
+            cx.ctx.assume(z3.Select(cx.ctx.nom_arr, 0))
+        return z3.Select(cx.ctx.nom_arr, k)
+
+    def unfold_nom(cx, k):
+        n = z3.Length(iface_seq(cx))
+        cx.ctx.assume(z3.Implies(z3.And(k >= 0, k < n), NOM(cx, k + 1) == z3.And(NOM(cx, k), z3.Not(MATCH(cx, k)))))
+
+    def first_match(cx):
+        j0 = cx.ctx.skolem('j0', IntSort)
+        n = z3.Length(iface_seq(cx))
+        unfold_nom(cx, j0)
+        return j0, z3.And(j0 >= 0, j0 < n, MATCH(cx, j0), NOM(cx, j0))
+
     def loop_inv(cx):
-        return [('nothing sent, nothing run', cx.unchanged('Conn.g_nsent', 'Conn.g_last', 'IObj.g_exec'))]
+        k = cx.l('_k1')
+        j0 = cx.ctx.skolem('j0', IntSort)
+        unfold_nom(cx, k)
+        unfold_nom(cx, j0)
+        # NOM is monotone: a prefix without match has no match in any shorter prefix (instances relating k and j0)
+        cx.ctx.assume(z3.Implies(z3.And(j0 + 1 <= k, NOM(cx, k)), NOM(cx, j0 + 1)))
+        cx.ctx.assume(z3.Implies(z3.And(k + 1 <= j0, NOM(cx, j0)), NOM(cx, k + 1)))
+        cx.ctx.assume(z3.Implies(z3.And(k <= j0, NOM(cx, j0)), NOM(cx, k)))
+        out = [('nothing sent, nothing run', cx.unchanged('Conn.g_nsent', 'Conn.g_last', 'IObj.g_exec')),
+               ('no interface before this one matched', NOM(cx, k)),
+               ('the interfaces being searched are those of the addressed object', cx.L['_seq1'].seqs[0] == iface_seq(cx))]
+        if isinstance(cx.L.get('i'), VNone):
+            out.append(('nothing chosen yet', z3.BoolVal(True)))
+        return out
 
     contract(w, 'txdbus.objects.DBusObjectHandler.handleMethodCallMessage', {'self': Ref(H), 'msg': Ref('MethodCallMessage')},
              requires=pre, ensures=post, modifies=mods, epilogue=chain_shape,
@@ -260,7 +308,7 @@ def build(tier='quick'):
               assumed=['message constructors by their C18 contracts (validation + stored fields); connection.sendMessage appends to the ghost log',
                        'the call carries serial, path and member; its sender is a valid bus name or absent',
                        'generateIntrospectionXML / getManagedObjects return some value (C15 / C16); the exported object lists its interfaces (getInterfaces) and executeMethod is the invocation of the implementation (its method-resolution through the MRO caches is in the bounded part only)',
-                       'WHICH interface wins when several declare the member (first in lookup order) is decided by the bounded part; the proof covers every outcome of that search'],
+                       'the lookup order of the interfaces is what getInterfaces() yields (MRO order of the classes): interface stub'],
               notes=['reply construction can fail only inside the message constructors; then nothing is sent (proved) - the text of error replies is made a valid DBus string first (defect fixed in /repo)'],
               explanation='dispatch decision, reply count and addressing, error naming and the chaining of the two reply closures proved for every call and every declared interface set; reference-dispatcher comparison on generated class hierarchies on top',
               design_ref='DESIGN.md 4/C10')
